@@ -5,6 +5,7 @@ import (
 	"fmt"
 	"os"
 	"reflect"
+	"strconv"
 	"strings"
 	"testing"
 	"time"
@@ -543,3 +544,47 @@ func runLocalIndex(r *vt.Run, t vt.TB, s localSpec) {
 }
 
 var _ = os.Getenv
+
+// replayFuzzFile: crasher of the native fuzzer -> totality case (replayable).
+func replayFuzzFile(t *testing.T) {
+	path := os.Getenv("VERIF_FUZZFILE")
+	if path == "" {
+		t.Skip()
+	}
+	r := vt.Begin("C16", "TestC16Total")
+	defer r.End()
+	b, err := os.ReadFile(path)
+	if err != nil {
+		r.Harness(t, "fuzz file: %v", err)
+	}
+	var in string
+	found := false
+	for _, line := range strings.Split(string(b), "\n") {
+		line = strings.TrimSpace(line)
+		if strings.HasPrefix(line, "string(") && strings.HasSuffix(line, ")") {
+			s, err := strconv.Unquote(line[len("string(") : len(line)-1])
+			if err != nil {
+				r.Harness(t, "fuzz file: %v", err)
+			}
+			in, found = s, true
+		}
+	}
+	if !found {
+		r.Harness(t, "fuzz file %s holds no string value", path)
+	}
+	s := totalSpec{Input: in, Kind: "native-fuzz", Other: "SELECT a FROM t"}
+	r.Case(s, true, "total:native-fuzz")
+	first, ok := parseGuarded(s.Input)
+	switch {
+	case !ok:
+		r.Violation(t, s, "total:hang", "Parse did not return within 40s on %d bytes", len(s.Input))
+	case first.panic != "":
+		r.Violation(t, s, "total:panic", "Parse(%q) panics: %s", s.Input, first.panic)
+	case first.res == nil && first.err == "":
+		r.Violation(t, s, "total:neither", "Parse(%q) returned neither a statement nor an error", s.Input)
+	default:
+		if second := parseOnce(s.Input); !reflect.DeepEqual(first, second) {
+			r.Violation(t, s, "det:repeat", "Parse(%q) twice: %+v then %+v", s.Input, first, second)
+		}
+	}
+}
